@@ -375,6 +375,7 @@ This decides `no new unaudited panic/recursion/loop site`, the enumerated necess
     template_cycle(m, ctx);
     float_tokens(m, ctx);
     object_cycle(m, ctx);
+    input_sized_ranges(m, ctx);
     // the generators treat notations the linker expands (selection types, COMPONENTS OF) as unreachable!(): the order of
     // the linking steps is what guarantees that none survives (shared with C09.order)
     crate::rules::c09::order(m, ctx, "C08.order");
@@ -628,6 +629,69 @@ fn object_cycle(m: &Model, ctx: &mut Ctx) {
             "`a CLS ::= { b }  b CLS ::= { c }  c CLS ::= { b }`: collect_supertypes is still resolving referenced objects inside one another after 8 rounds — objects that refer to each other in a circle are resolved without end (stack overflow)"),
         Err(e) => ctx.fail_closed("C08.objcycle", &format!("[circular objects]: {}", e)),
     }
+}
+
+/// C08.alloc: a collection must not be sized by a number written in the input. Every numeric range that is iterated
+/// (`(a..=b).map(..)`, `for i in a..b`) in the crate's own code is classified by its upper end: a literal, a constant or a
+/// length of existing data is bounded by the data; an upper end that is a parameter or local of the function is
+/// *input-sized* unless the function tests it against a constant bound first (`if !(0..=MAX).contains(&n) { return Err }`,
+/// `if n > MAX { .. Err }`) or the site is audited in audit/ranges.json with the argument that bounds it.
+fn input_sized_ranges(m: &Model, ctx: &mut Ctx) {
+    let audit: Value = std::fs::read_to_string(ctx.verif.join("audit/ranges.json")).ok().and_then(|s| serde_json::from_str(&s).ok()).unwrap_or(json!({"sites": {}}));
+    struct C { ranges: Vec<syn::ExprRange>, not_iterated: Vec<String> }
+    impl model::DeepCb for C {
+        fn expr(&mut self, e: &syn::Expr) {
+            match e {
+                syn::Expr::Range(r) if r.end.is_some() => self.ranges.push(r.clone()),
+                // slicing and membership tests do not iterate
+                syn::Expr::Index(i) => self.not_iterated.push(tok(&i.index)),
+                syn::Expr::MethodCall(mc) if mc.method == "contains" || mc.method == "get" || mc.method == "slice" => {
+                    let mut r = &*mc.receiver;
+                    while let syn::Expr::Paren(p) = r { r = &p.expr; }
+                    self.not_iterated.push(tok(r));
+                    for a in mc.args.iter() {
+                        self.not_iterated.push(tok(a));
+                    }
+                }
+                _ => {}
+            }
+        }
+    }
+    let mut sites = 0;
+    for f in m.fns.iter().filter(|f| f.krate == "rasn-compiler" && !f.module.contains("tests")) {
+        let mut c = C { ranges: vec![], not_iterated: vec![] };
+        model::deep_walk_block(&f.block, &mut c);
+        for r in &c.ranges {
+            let whole = tok(r);
+            if c.not_iterated.iter().any(|n| n == &whole) {
+                continue;
+            }
+            let end = tok(r.end.as_ref().unwrap());
+            // bounded by a literal, a constant, a char/u8/u16 cast of one, or the length of something that exists
+            let is_const = |t: &str| t.chars().all(|ch| ch.is_ascii_digit() || ch == '_' || ch.is_ascii_uppercase() || ch == ':' ) || t.contains("::MAX") || t.contains("::MIN") || t.starts_with("0x") || (t.chars().next().map(|ch| ch.is_ascii_digit()).unwrap_or(false));
+            if is_const(&end) || end.contains(".len()") || end.contains("len") || end.contains("count") {
+                continue;
+            }
+            sites += 1;
+            let key = format!("{}|{}", f.key, whole);
+            ctx.func(&f.key);
+            ctx.oblige("C08.alloc", &key, true);
+            if audit["sites"].get(&key).and_then(|v| v.get("reason")).and_then(|r| r.as_str()).map(|r| !r.is_empty()).unwrap_or(false) {
+                continue;
+            }
+            // a test of the upper end against a constant bound ahead of the range, in the same function
+            let b = tok(&f.block);
+            let base: String = end.trim_start_matches('*').chars().take_while(|ch| ch.is_alphanumeric() || *ch == '_').collect();
+            let pos = b.find(&whole).unwrap_or(0);
+            let before = &b[..pos];
+            let guarded = !base.is_empty() && (before.contains(&format!(".contains(&{})", base)) || before.contains(&format!("{}>", base)) || before.contains(&format!("{}>=", base)) || before.contains(&format!("::try_from({})", base))) && (before.contains("Err(") || before.contains("returnErr") || before.contains("?"));
+            if !guarded {
+                ctx.violate("C08.alloc", &format!("input-sized:{}", key), &f.file, crate::rules::util::span_line(r),
+                    &format!("`{}` in {} is iterated up to `{}`, a number the function is given, without a test against a constant bound: a definition that writes a huge number there (a named bit `a(99999999999999999999)`) makes the compiler allocate that much — capacity overflow panic or memory exhaustion", whole, f.key, end));
+            }
+        }
+    }
+    ctx.floor("C08.alloc/ranges-examined", sites, 1);
 }
 
 /// C08.guard: ASN1Value::min / max compare two character-range bounds by their position in a string type's alphabet; they are
